@@ -165,6 +165,8 @@ PropGeomOK(w, c) == \A bi \in 1..Len(w.beams) :
 PropagateDft(w, c) ==
     IF Flip(w.ptype) = "bad" THEN [w EXCEPT !.err = "TypeError"]
     ELSE IF \E bi \in 1..Len(w.beams) : w.beams[bi].sh = None THEN [w EXCEPT !.err = "Undefined"]   \* no sampled plane yet
+    \* an output mask says which samples OF THE OUTPUT ARRAY to evaluate: a mask of any other shape (on either axis) is refused
+    ELSE IF c.mask.k # "none" /\ <<Len(c.mask.m), Len(c.mask.m[1])>> # OutShape(c) THEN [w EXCEPT !.err = "ValueError"]
     ELSE IF ~PropGeomOK(w, c) THEN [w EXCEPT !.err = "RingTooSmall"]     \* machinery: N chosen too small by the driver
     ELSE LET a == Alpha(w, c)
              osh == OutShape(c)
